@@ -72,7 +72,15 @@ where
     }
 
     writeln!(writer, "    let url = \"{action}\";")?;
-    writeln!(writer, "    helpers::send_soap_request(url, credentials, req).await")?;
+    if operation.output.is_some() {
+        writeln!(writer, "    helpers::send_soap_request(url, credentials, req).await")?;
+    } else {
+        // no output message: there is no envelope type to deserialize the reply into
+        writeln!(
+            writer,
+            "    helpers::send_soap_request::<_, helpers::NoResponse, _, _>(url, credentials, req).await.map(|_| ())"
+        )?;
+    }
     writeln!(writer, "}}")?;
 
     Ok(())
